@@ -459,4 +459,81 @@ example : witnessDb.wfB = true ∧ validCap ['-', 'f', 'o', 'o'] = true ∧
     Spec.decide witnessDb 0 ['a', '!', 'b', '@', 'c'] ['-', 'f', 'o', 'o'] {} = false := by
   refine ⟨by decide, by decide, ⟨_, rfl⟩, by rfl⟩
 
+/-! ## channels.conf written and read back (`Db.reloadChannels`) -/
+
+/-- one `add` of a valid capability keeps a pair `b` / `nb` of mutual inverses decided: whichever
+of the two was in the set stays, unless it is the inverse of what is added — and then what is
+added is the other one -/
+theorem add_keeps_decided {s s' : CapSet} {x b nb : Str} (hx : validCap x = true)
+    (hb : invertCapability b = .ok nb) (hnb : invertCapability nb = .ok b)
+    (h : CapSet.add s x = .ok s') (hd : b ∈ s ∨ nb ∈ s) : b ∈ s' ∨ nb ∈ s' := by
+  have hvc := validCap_toLower hx
+  obtain ⟨inv, hinv⟩ := invert_ok_of_valid hvc
+  obtain ⟨_, hii, _⟩ := invert_involutive hvc hinv
+  have hm := add_mem_iff hinv h
+  rcases hd with hd | hd
+  · by_cases e : b = inv
+    · right
+      rw [hm]; left
+      rw [← e, hb] at hii
+      injection hii
+    · left; rw [hm]; exact Or.inr ⟨hd, e⟩
+  · by_cases e : nb = inv
+    · left
+      rw [hm]; left
+      rw [← e, hnb] at hii
+      injection hii
+    · right; rw [hm]; exact Or.inr ⟨hd, e⟩
+
+theorem reload_fold_decided (l : List Str) (hl : ∀ x ∈ l, validCap x = true) {b nb : Str}
+    (hb : invertCapability b = .ok nb) (hnb : invertCapability nb = .ok b) (s : CapSet) (hd : b ∈ s ∨ nb ∈ s) :
+    b ∈ l.foldl (fun s x => match CapSet.add s x with | .ok s' => s' | .error _ => s) s ∨
+    nb ∈ l.foldl (fun s x => match CapSet.add s x with | .ok s' => s' | .error _ => s) s := by
+  induction l generalizing s with
+  | nil => exact hd
+  | cons x rest ih =>
+    simp only [List.foldl_cons]
+    apply ih (fun y hy => hl y (List.mem_cons_of_mem _ hy))
+    cases ha : CapSet.add s x with
+    | error e => exact hd
+    | ok s' => exact add_keeps_decided (hl x List.mem_cons_self) hb hnb ha hd
+
+/-- table obligation on the extracted `defaultOff` list: each entry and its anti-capability are
+mutual inverses, and a fresh channel carries the anti-capability -/
+def offOK (b : Str) : Bool :=
+  (match invertCapability b with | .ok y => y == ('-' :: b) | .error _ => false) &&
+  (match invertCapability ('-' :: b) with | .ok y => y == b | .error _ => false) &&
+  List.elem ('-' :: b) Channel.default.caps
+
+/-- **After channels.conf is written and read back, no channel leaves `op`, `halfop`, `voice` or
+`protected` to its default**: every channel record holds each of them or its anti-capability
+(the constructor of `IrcChannel` puts the anti-capabilities in, the `capability` lines of the file
+can only turn one into the other).  So `#chan,op` is never answered by `defaultAllow` after a
+restart. -/
+theorem reload_decides_defaultOff (db : Db) (hdb : ∀ p ∈ db.channels, ∀ x ∈ p.2.caps, validCap x = true)
+    (p : Str × Channel) (hp : p ∈ db.reloadChannels.channels) (b : Str) (hb : b ∈ Gen.channelDefaultOff) :
+    b ∈ p.2.caps ∨ ('-' :: b) ∈ p.2.caps := by
+  unfold Db.reloadChannels at hp
+  simp only [List.mem_map] at hp
+  obtain ⟨q, hq, e⟩ := hp
+  subst e
+  simp only [Channel.reloaded]
+  have hall : Gen.channelDefaultOff.all offOK = true := by decide
+  have hob := List.all_eq_true.1 hall b hb
+  unfold offOK at hob
+  simp only [Bool.and_eq_true] at hob
+  obtain ⟨⟨h1, h2⟩, h3⟩ := hob
+  have e1 : invertCapability b = .ok ('-' :: b) := by
+    cases hi : invertCapability b with
+    | ok y => rw [hi] at h1; simp only [beq_iff_eq] at h1; rw [h1]
+    | error e => rw [hi] at h1; cases h1
+  have e2 : invertCapability ('-' :: b) = .ok b := by
+    cases hi : invertCapability ('-' :: b) with
+    | ok y => rw [hi] at h2; simp only [beq_iff_eq] at h2; rw [h2]
+    | error e => rw [hi] at h2; cases h2
+  exact reload_fold_decided q.2.caps (hdb q hq) e1 e2 _ (Or.inr (List.mem_of_elem_eq_true h3))
+
+/-- a fresh channel survives the round trip unchanged -/
+theorem reload_default : Channel.default.reloaded = Channel.default := by decide
+
 end C03
